@@ -81,6 +81,7 @@ fn gen_spec(t: &mut Tape) -> FmtSpec {
         // padding buffer shows there), one precision in eight beyond 20
         width: if t.bool(2, 3) { Some(if t.bool(1, 6) { 41 + t.below(360) } else { t.below(41) }) } else { None },
         precision: if t.bool(1, 2) { Some(if t.bool(1, 8) { 21 + t.below(60) } else { t.below(21) }) } else { None },
+        alt: t.bool(1, 5),
     }
 }
 
@@ -488,7 +489,7 @@ impl Property for C18 {
         "proptest (and the libFuzzer targets, which decode bytes into the same cases) draws an operation family - conversion, comparison and like arithmetic, scaling, derived product/quotient in any owned/borrowed form, rate operations, formatting, best fit, mixing for types without reference unit - with units and amounts. f64: every IEEE class (zeros, subnormals, extremes, infinities, NaN); any panic is a violation. Decimal: magnitudes k*10^e spread over and beyond [1e-15, 1e17] with the limits over-represented; a case is in the domain iff divisors are non-zero and every magnitude that naturally arises (operands and results in their own, reference and smallest units, scale products/ratios, bare amount products/quotients, divisor in the dividend's unit) is zero or inside [1e-15, 1e17]; in-domain cases must not panic, others are discarded and counted. Types without reference unit: mixed units must panic in + - / and nothing else may. Non-trivial: a special value (f64) or a magnitude within two decades of a limit (decimal), mixed units; distinct by full case".into()
     }
     fn tape_len(&self) -> usize {
-        40
+        44
     }
     fn cases(&self, tier: Tier) -> u64 {
         match tier {
